@@ -68,6 +68,8 @@ def records(style):
 
 
 def build(S):
+    from contracts import dispatch
+    dispatch.prove_dispatch(S)
     S.function(REL, 'Atoms.save_lmpdat')
 
     def check_style(style):
